@@ -232,6 +232,18 @@ static void ledger_round(State& S, int rep) {
       }
       alloc_n(500, 16, 8192, false);
       break; }
+    case 6: {                                                                          // more than 64 segments live at once in one large arena (MIMALLOC_ARENA_RESERVE >= 4 GiB): every block of a bitmap word, also the last one
+      std::vector<uint8_t*> hs;
+      for (int i = 0; i < 72; i++) {
+        const size_t n = 17 * MiB + (size_t)vf_rng_below(&r, 6 * MiB);
+        uint8_t* p = (uint8_t*)mi_malloc(n);
+        if (p == nullptr) vf_trip("wellformed-refused", "C06", "mi_malloc(%zu) failed", n);
+        memset(p, 0x51, 6 * MiB); p[n - 1] = 0x52;                                      // touch 6 MiB of each (the tolerance of the "arena still committed" rule is 4 MiB)
+        hs.push_back(p); g_ledger_blocks++;
+      }
+      alloc_n(300, 16, 8192, false);
+      for (uint8_t* p : hs) { if (p[0] != 0x51 || p[6 * MiB - 1] != 0x51) vf_trip("contents", "C01", "huge block %p changed", (void*)p); mi_free(p); }
+      break; }
     default: break;
   }
   S.sm.verify_all("ledger round");
